@@ -249,6 +249,7 @@ type syncGen struct {
 	wildcard bool   // C15: wildcard hosts
 	annots   bool   // C06: tracer annotations
 	xns      bool   // C15: cross namespace secret names
+	auth     bool   // C06: external authentication declared by several ingresses on shared auth targets
 }
 
 var syncNamespaces = []string{"d", "e"}
@@ -261,9 +262,21 @@ const stdPorts = "http:80:8080+adm:81:adm"
 
 func (g *syncGen) baseOps() (ops []string, drain bool) {
 	r := g.r
+	var cm []string
 	if r.Chance(1, 4) {
 		drain = true
-		ops = append(ops, "cm~drain-support=true")
+		cm = append(cm, "drain-support=true")
+	}
+	if g.auth {
+		// external haproxy: auth-url / oauth need Lua
+		cm = append(cm, "external-has-lua=true")
+		if r.Chance(1, 3) {
+			// a range of two ports for the auth proxies: exhausted by the third auth target
+			cm = append(cm, "auth-proxy=_front_auth:14415-14416")
+		}
+	}
+	if len(cm) > 0 {
+		ops = append(ops, "cm~"+strings.Join(cm, ";"))
 	}
 	for _, ns := range syncNamespaces {
 		nsb := map[string]int{"d": 0, "e": 1}[ns]
@@ -343,8 +356,12 @@ func (g *syncGen) ingress(ns, name string, ts int) world.IngressSpec {
 	for i := 0; i < nr; i++ {
 		rule := world.RuleSpec{Host: gen.Pick(r, hosts)}
 		np := r.Range(1, 3)
+		paths := g.paths
+		if g.auth {
+			paths = append(append([]string{}, g.paths...), "/oauth2", "/oauth2")
+		}
 		for j := 0; j < np; j++ {
-			p := world.PathSpec{Path: gen.Pick(r, g.paths), Type: gen.Pick(r, []string{"Prefix", "Exact", "ImplementationSpecific", ""}),
+			p := world.PathSpec{Path: gen.Pick(r, paths), Type: gen.Pick(r, []string{"Prefix", "Exact", "ImplementationSpecific", ""}),
 				Svc: gen.Pick(r, syncServices), Port: gen.Pick(r, []string{"80", "http", "81", "adm", "8080", "9999", "82", "alt", ""})}
 			if r.Chance(3, 4) {
 				p.Port = gen.Pick(r, []string{"80", "http"})
@@ -412,6 +429,24 @@ func (g *syncGen) ingress(ns, name string, ts int) world.IngressSpec {
 		if r.Chance(1, 5) {
 			// settings read only by the declaration that CREATES the backend object
 			world.CreateTimeAnnotations(r, &s)
+		}
+	}
+	if g.auth {
+		switch r.Intn(5) {
+		case 0, 1:
+			// auth backends are shared by ip:port: one target reached through different schemes / paths by several
+			// ingresses; what the shared `_auth_backendNNN` server line looks like must not depend on who comes first
+			// (seed C06f)
+			s.Annotations["auth-url"] = gen.Pick(r, []string{"http://10.9.9.9:8000/auth", "https://10.9.9.9:8000/auth", "https://10.9.9.9:8000/other",
+				"http://10.9.9.8:8000/auth", "https://10.9.9.7:8443/auth", "svc://app:80/auth"})
+			if r.Chance(1, 4) {
+				s.Annotations["auth-external-placement"] = "frontend"
+			}
+		case 2:
+			s.Annotations["oauth"] = "oauth2_proxy"
+			if r.Chance(1, 3) {
+				s.Annotations["oauth-uri-prefix"] = "/a"
+			}
 		}
 	}
 	return s
